@@ -133,6 +133,11 @@ type Run struct {
 	// 3 head compaction (WAL checkpoint) since, 4 reopened again.
 	// Known finding "head-delete-lost-after-empty-compaction": (series,t) -> stage; 1 deleted while
 	// stored in-order in the head, 2 head compaction since, 3 reopened since.
+	// Known finding "ooo-block-merged-raises-restart-bound": ULIDs of blocks that carry the
+	// out-of-order hint or descend from one; riskBound is the largest MaxTime of a block without
+	// the hint that descends from an out-of-order block.
+	oooULIDs  map[string]bool
+	riskBound int64
 	headDeleted map[int]map[int64]int
 	everCreated map[int]bool
 	dupStage    map[int]int
@@ -155,6 +160,9 @@ const SigDeleteHidesLater = "delete-hides-later-ooo-append"
 
 // SigHeadDeleteLost names the known finding about head tombstones dropped by a head compaction.
 const SigHeadDeleteLost = "head-delete-lost-after-compaction-and-restart"
+
+// SigMixedBound names the known finding about merged out-of-order blocks raising the restart bound.
+const SigMixedBound = "ooo-block-merged-raises-restart-bound"
 
 // SigWBLOrphan names the known finding about out-of-order samples of a re-created series.
 const SigWBLOrphan = "wbl-sample-orphaned-by-checkpoint"
@@ -257,7 +265,7 @@ func Start(h History, rec *ev.Rec) (*Run, error) {
 		return nil, err
 	}
 	r := &Run{Cfg: h.Cfg, Dir: dir, Rec: rec, Apps: map[int]*appState{}, Did: map[string]int{}, CheckAdmission: true,
-		oooDeleteSurvivors: map[int]map[int64]bool{}, deletedRanges: map[int][][2]int64{}, hiddenCands: map[int]map[int64]bool{}, headDeleted: map[int]map[int64]int{}, everCreated: map[int]bool{}, dupStage: map[int]int{}, creator: map[int]int{}, established: map[int]bool{}, tainted: map[int]bool{}, taintedReopened: map[int]bool{}}
+		oooDeleteSurvivors: map[int]map[int64]bool{}, deletedRanges: map[int][][2]int64{}, hiddenCands: map[int]map[int64]bool{}, oooULIDs: map[string]bool{}, riskBound: math.MinInt64, headDeleted: map[int]map[int64]int{}, everCreated: map[int]bool{}, dupStage: map[int]int{}, creator: map[int]int{}, established: map[int]bool{}, tainted: map[int]bool{}, taintedReopened: map[int]bool{}}
 	r.M = tm.New(h.Cfg.NSeries, h.Cfg.ChunkRange, h.Cfg.OOOWindow)
 	if err := r.open(); err != nil {
 		os.RemoveAll(dir)
@@ -346,6 +354,17 @@ func outcomeMatches(o tm.Outcome, cls string) bool {
 
 // Exec applies one op to the database and the model.
 func (r *Run) Exec(op Op) error {
+	err := r.exec(op)
+	if r.DB != nil {
+		switch op.K {
+		case "compact", "flush", "compactooo", "cleantomb", "reopen":
+			r.scanBlocks()
+		}
+	}
+	return err
+}
+
+func (r *Run) exec(op Op) error {
 	ctx := context.Background()
 	r.Did[op.K]++
 	switch op.K {
@@ -656,7 +675,27 @@ func (r *Run) afterCompaction() {
 	}
 }
 
+func (r *Run) scanBlocks() {
+	for _, b := range r.DB.Blocks() {
+		m := b.Meta()
+		id := m.ULID.String()
+		if m.Compaction.FromOutOfOrder() {
+			r.oooULIDs[id] = true
+			continue
+		}
+		for _, p := range m.Compaction.Parents {
+			if r.oooULIDs[p.ULID.String()] {
+				r.oooULIDs[id] = true
+				if m.MaxTime > r.riskBound {
+					r.riskBound = m.MaxTime
+				}
+			}
+		}
+	}
+}
+
 func (r *Run) inOrderBlocksMaxT() int64 {
+	r.scanBlocks()
 	maxt := int64(math.MinInt64)
 	for _, b := range r.DB.Blocks() {
 		m := b.Meta()
@@ -944,6 +983,11 @@ func RunAll(h History, rec *ev.Rec, setup func(r *Run)) (*Run, error) {
 					}
 					if r.failExtra && r.headDeleted[r.failSeries][r.failT] == 3 {
 						return r, ev.FailSig(SigHeadDeleteLost, "%s", err.Error())
+					}
+					if r.failMissing && op.K == "reopen" && r.failT < r.riskBound {
+						if p := r.M.Series[r.failSeries].Pts[r.failT]; p != nil && !p.WasOOO {
+							return r, ev.FailSig(SigMixedBound, "%s", err.Error())
+						}
 					}
 					if r.failMissing && r.dupStage[r.failSeries] == 4 {
 						if p := r.M.Series[r.failSeries].Pts[r.failT]; p != nil && p.OOOHead {
